@@ -333,6 +333,7 @@ def dry_run(inst, pre):
     or where the call depth returned to the outermost library frame)."""
     marks = [[] for _ in inst['threads']]
     state = {}
+    seen_pos = set()
 
     def recorder(s, E):
         lib = s.lib
@@ -353,6 +354,9 @@ def dry_run(inst, pre):
                 if event == 'line':
                     n = s.steps[i]
                     s.steps[i] = n + 1
+                    co = frame.f_code
+                    seen_pos.add('%s:%s:%d' % (co.co_filename[len(lib):],
+                                               co.co_name, frame.f_lineno))
                     st = store()
                     if prev.get(i) is not None and st != prev[i]:
                         marks[i].append(n)
@@ -377,7 +381,8 @@ def dry_run(inst, pre):
         [['T', t, None] for t in range(len(inst['threads']))]
     out = run_plan(inst, pre, plan, recorder=recorder)
     return {'steps': out['steps'],
-            'marks': [sorted(set(m)) for m in marks]}
+            'marks': [sorted(set(m)) for m in marks],
+            'positions': sorted(seen_pos)}
 
 
 def gen_plan(rng, inst, dry, kind):
@@ -469,7 +474,8 @@ def run_one(base, i, prop=None, mode='random'):
             # opcode events are ~5x denser than lines: scale the dry-run
             # line counts (landmarks stay approximate)
             dry = {'steps': [x * 5 for x in dry['steps']],
-                   'marks': [[m * 5 for m in ms] for ms in dry['marks']]}
+                   'marks': [[m * 5 for m in ms] for ms in dry['marks']],
+                   'positions': dry['positions']}
         plans = [gen_plan(rng, inst, dry,
                           'pre' if rng.random() < 0.55 else 'mid')
                  for _ in range(PLANS_PER_INSTANCE)]
@@ -503,8 +509,10 @@ def run_one(base, i, prop=None, mode='random'):
     cnt.hit('line_events_in_reload', dry['steps'][0])
     if viol is not None:
         viol['plan'] = vplan
+    states = ['used ' + p for p in positions] + \
+        ['seen ' + p for p in dry.get('positions', [])]
     return {'index': i, 'digest': dg.hex(), 'violation': viol,
-            'counters': dict(cnt), 'states': sorted(positions),
+            'counters': dict(cnt), 'states': sorted(states),
             'simtime': simtime, 'events': dg.n,
             'nontrivial': cnt.get('context_switches', 0) > 0}
 
@@ -666,6 +674,17 @@ COMPONENTS = {
 EXPECTED_PROBES = {'C20': ['decision_on_informative_probe',
                            'preemption_inside_library',
                            'edit_during_threads']}
+
+
+def summarise_states(states):
+    used = {s[5:] for s in states if s.startswith('used ')}
+    seen = {s[5:] for s in states if s.startswith('seen ')}
+    return {'distinct_states': len(used),
+            'preemption_positions_used': len(used),
+            'library_line_positions_executed_by_the_threads': len(seen),
+            'fraction_of_executed_line_positions_preempted':
+                round(len(used & seen) / max(1, len(seen)), 3),
+            'positions_never_preempted': sorted(seen - used)[:60]}
 
 
 def extra_coverage(prop, counters):
